@@ -101,10 +101,9 @@ def taxonOk (xs : List Bytes) : Bool :=
   let w := wrapSpace (joinWith (bs "; ") xs ++ [46])
   noCR w && flatFileSplit (taxJoin [] (headLine w :: tailLines w)) == xs
 
-/-- the organism name stays on its line (known finding K1B otherwise) and does not start with a
-blank (the sub-field indent is counted up to the first non-blank) -/
-def organismOk (name : Bytes) : Bool :=
-  wrapSpace name == name && noEOL name && name.head? != some 32
+/-- the organism name is one line (a line feed in it would start the taxonomy) and does not start
+with a blank (the sub-field indent is counted up to the first non-blank) -/
+def organismOk (name : Bytes) : Bool := noEOL name && name.head? != some 32
 
 theorem blankWord_ok (n : Nat) (X : Bytes) (stk : List Bytes) (hn : 0 < n)
     (hX : ∀ c, X.head? = some c → c ≠ 32) :
@@ -127,21 +126,22 @@ theorem organismName_ok (X : Bytes) (stk : List Bytes) (stale : Nat) (hX : ∀ c
   have hlen : (bs "ORGANISM").length = 8 := by decide
   gsimp [subfieldName, h1, lit_ok, h2, sp_length, hlen]
 
-/-- **SOURCE / ORGANISM / taxonomy** round trip.  The species text is read back as it was
-wrapped (equal to the species iff it fits one line — known finding K1C otherwise). -/
+/-- **SOURCE / ORGANISM / taxonomy** round trip: the species text (any text without carriage
+return; written as it is since repo 3d74d27), the organism name (one line, written unwrapped since
+repo 69bb3bf) and the taxonomy list come back. -/
 theorem source_roundtrip (f : Fields) (species name : Bytes) (taxon : List Bytes) (rest : Bytes)
-    (stk : List Bytes) (hs : noCR (wrapSpace species) = true) (hn : organismOk name = true)
+    (stk : List Bytes) (hs : noCR (species) = true) (hn : organismOk name = true)
     (ht : taxonOk taxon = true) (hrest : (sp 12).isPrefixOf rest = false) :
     sourceField 12 f
-        ⟨bs "SOURCE      " ++ (addPrefix indent (wrapSpace species) ++ 10 ::
-          (bs "  ORGANISM  " ++ (addPrefix indent (wrapSpace name) ++ 10 ::
+        ⟨bs "SOURCE      " ++ (addPrefix indent (species) ++ 10 ::
+          (bs "  ORGANISM  " ++ (addPrefix indent (name) ++ 10 ::
           (indent ++ (addPrefix indent (wrapSpace (joinWith (bs "; ") taxon ++ [46])) ++ 10 :: rest))))), stk⟩ =
-      (.ok ({ f with species := wrapSpace species, organism := name, taxon := taxon }, true), ⟨rest, stk⟩) := by
-  simp only [organismOk, Bool.and_eq_true, beq_iff_eq, bne_iff_ne, ne_eq] at hn
-  obtain ⟨⟨hn1, hn2⟩, hn3⟩ := hn
+      (.ok ({ f with species := species, organism := name, taxon := taxon }, true), ⟨rest, stk⟩) := by
+  simp only [organismOk, Bool.and_eq_true, bne_iff_ne, ne_eq] at hn
+  obtain ⟨hn2, hn3⟩ := hn
   simp only [taxonOk, Bool.and_eq_true, beq_iff_eq] at ht
   obtain ⟨ht1, ht2⟩ := ht
-  rw [hn1, addPrefix_noLF _ name hn2]
+  rw [addPrefix_noLF _ name hn2]
   -- taxonomy
   generalize wrapSpace (joinWith (bs "; ") taxon ++ [46]) = W at ht1 ht2 ⊢
   obtain ⟨hl0, hls⟩ := lines_noEOL W ht1
@@ -163,15 +163,15 @@ theorem source_roundtrip (f : Fields) (species name : Bytes) (taxon : List Bytes
       · exact hls x hx) hrest hlen
     rw [hT] at this; exact this
   -- SOURCE
-  have e : bs "SOURCE      " ++ (addPrefix indent (wrapSpace species) ++ 10 :: (bs "  ORGANISM  " ++ (name ++ 10 :: T))) =
-      bs "SOURCE" ++ (sp (12 - (bs "SOURCE").length) ++ (addPrefix (sp 12) (wrapSpace species) ++ 10 ::
+  have e : bs "SOURCE      " ++ (addPrefix indent (species) ++ 10 :: (bs "  ORGANISM  " ++ (name ++ 10 :: T))) =
+      bs "SOURCE" ++ (sp (12 - (bs "SOURCE").length) ++ (addPrefix (sp 12) (species) ++ 10 ::
         (bs "  ORGANISM  " ++ (name ++ 10 :: T)))) := by
     show _ = bs "SOURCE" ++ (sp 6 ++ _)
     simp [bs, sp, indent]
   rw [e]
   have horg : (sp 12).isPrefixOf (bs "  ORGANISM  " ++ (name ++ 10 :: T)) = false := by
     simp [bs, sp, List.replicate, List.isPrefixOf]
-  have hg := fun s => genericField_ok (bs "SOURCE") 12 (wrapSpace species) _ s (by decide) hs horg
+  have hg := fun s => genericField_ok (bs "SOURCE") 12 (species) _ s (by decide) hs horg
   -- ORGANISM
   have hX : ∀ c, (name ++ 10 :: T).head? = some c → c ≠ 32 := by
     intro c hc
